@@ -121,10 +121,11 @@ def case_history(shape, dx, dtype, depth):
     r = np.zeros(n, dtype=dtype); r[0] = 1; rhs["a"] = r.reshape(shape)
     r = np.zeros(n, dtype=dtype); r[n - 1] = -3; rhs["b"] = r.reshape(shape)
     rhs["big"] = ((((np.arange(n) * 5) % 7) - 3) * 1e6).astype(dtype).reshape(shape)
-    events = [("solve", "a"), ("solve", "b"), ("solve", "big"), ("poison", "nan"), ("poison", "1e30")]
+    rhs["zero"] = np.zeros(shape, dtype=dtype)
+    events = [("solve", "a"), ("solve", "b"), ("solve", "big"), ("solve", "zero"), ("poison", "nan"), ("poison", "1e30")]
     if dim == 3:
         events.insert(3, ("vsolve", ""))
-    vr = np.stack([rhs["b"], rhs["big"], rhs["a"]]) if dim == 3 else None
+    vr = np.stack([rhs["b"], rhs["zero"], rhs["a"]]) if dim == 3 else None
 
     class S:
         def __init__(self):
@@ -166,7 +167,7 @@ def case_history(shape, dx, dtype, depth):
         elif obs[0] == "vsolve":
             if not obs[1]:
                 fl.append(Fail(f"{tag}:vector-solve", "vector solve differs from three scalar solves", history=h))
-            for c, k in enumerate(("b", "big", "a")):
+            for c, k in enumerate(("b", "zero", "a")):
                 if not np.all(np.isfinite(s.vu[c])) or resid(s.vu[c], rhs[k]) > tol:
                     fl.append(Fail(f"{tag}:vector-solve-value", "vector solve component does not solve its Poisson problem", history=h, component=c))
         return fl
